@@ -1,7 +1,7 @@
 """C05 — AABB tree answers overlap queries exactly, for every insertion history."""
 from . import scopes
 from ..core.report import DOMAIN_D
-from ..rules import aabbtree, unpack
+from ..rules import aabbtree, unpack, misc2
 
 
 def run(idx, rep, tier):
@@ -20,4 +20,5 @@ def run(idx, rep, tier):
     aabbtree.r_sentinel(idx, rep)
     aabbtree.r_bookkeep(idx, rep)
     aabbtree.r_unique(idx, rep)
+    misc2.r_dupcond(idx, rep, [m.name for m in idx.lib_modules()], floor=3)
     unpack.r_unpack(idx, rep, floor=4)
